@@ -123,7 +123,7 @@ def replay_file(path):
     ns = native.load_sidecars(CONTRACTS)
     reg = Registry()
     reg.load_dir(CONTRACTS)
-    target = rec["function"]
+    target = rec.get("replay_function") or rec["function"]
     if rec.get("kind") == "bounded":
         mod = importlib.import_module(rec["validator_module"])
         ok = mod.replay(REPO, rec)
@@ -203,7 +203,7 @@ def main(argv=None):
 
     # native run-time contract check / witness pool, per function (also the vacuity witness)
     native_failures = {}
-    for t in targets:
+    for t in targets + list(cfg.get("native_only", [])):
         if t.startswith("lemma:"):
             continue
         try:
@@ -252,7 +252,11 @@ def main(argv=None):
         for f in r["failed"]:
             key = clause_key(f["name"])
             fails = native_failures.get(t) or []
-            rec = {"property": pid, "function": t, "obligation": f["name"], "clause": f.get("note", ""),
+            src_t = t
+            if not fails and cfg.get("witness_from", {}).get(t):
+                src_t = cfg["witness_from"][t]
+                fails = native_failures.get(src_t) or []
+            rec = {"property": pid, "replay_function": src_t, "function": t, "obligation": f["name"], "clause": f.get("note", ""),
                    "solver": "%s (%s) %s" % (f["status"], f["backend"], f.get("reason", "")), "input": None}
             if fails:
                 inp, failure = fails[0]
